@@ -1,6 +1,5 @@
 import OmbottModel.Drv.Common
-import OmbottModel.Py.Crypto
-import OmbottModel.Model.Cookies
+import OmbottModel.Model.CookiesLib
 /-! Protocol lines of the cookie model (C15).  Values: `t<hex>` text, `o<hex>` object token.
 `<pk>` is the graph of `pickle.dumps` on the points the line needs: `name/value/bytes,…` (`~` empty);
 `pickle.loads` is its inverse and fails elsewhere.
@@ -27,8 +26,6 @@ def showVal : CVal → String
   | .text s => "t" ++ hexStr s
   | .obj b => "o" ++ hexBytes b
 
-abbrev PkTable := List ((Str × CVal) × Bytes)
-
 def parsePk (t : String) : Option PkTable :=
   if t == "~" then some [] else
   (t.splitOn ",").mapM fun e =>
@@ -36,14 +33,7 @@ def parsePk (t : String) : Option PkTable :=
     | [n, v, b] => (parseVal v).map fun v' => ((unhexStr n, v'), unhexBytes b)
     | _ => none
 
-/-- the library parameter as the driver instantiates it -/
-def lib (pk : PkTable) : Lib where
-  hmac := Crypto.hmacMd5
-  b64 := Crypto.b64encode
-  unb64 := Crypto.b64decode
-  pickle := fun x => ((pk.find? (·.1 == x)).map (·.2)).getD []
-  unpickle := fun b => (pk.find? (·.2 == b)).map (·.1)
-  load := parseCookies
+def lib (pk : PkTable) : Lib := concreteLib pk
 
 def showRes : Except CErr (Option CVal) → String
   | .error e => "err " ++ e.name
